@@ -259,10 +259,10 @@ fn format_attribute(
     if let Some((last, main)) = attr.arguments.split_last() {
         output.push('(');
         for expr in main {
-            format_expression(expr, output, context)?;
+            format_assignment_expression(expr, output, context)?;
             output.push_str(", ");
         }
-        format_expression(last, output, context)?;
+        format_assignment_expression(last, output, context)?;
         output.push(')');
     }
 
@@ -293,7 +293,7 @@ fn format_function_param(
 
     if let Some(default_expr) = &param.default_expr {
         output.push_str(" = ");
-        format_expression(default_expr, output, context)?;
+        format_assignment_expression(default_expr, output, context)?;
     }
 
     Ok(())
@@ -868,6 +868,16 @@ enum Associativity {
     None,
 }
 
+/// Format an expression that is an element of a comma separated list or the value of an initializer
+/// A sequence expression in this position needs to keep its parentheses
+fn format_assignment_expression(
+    expr: &ast::Expression,
+    output: &mut String,
+    context: &mut FormatContext,
+) -> Result<(), FormatError> {
+    format_subexpression(expr, 16, OperatorSide::Middle, output, context)
+}
+
 /// Format an expression within another expression
 fn format_subexpression(
     expr: &ast::Expression,
@@ -1159,7 +1169,7 @@ fn format_initializer_inner(
     context: &mut FormatContext,
 ) -> Result<(), FormatError> {
     match init {
-        ast::Initializer::Expression(expr) => format_expression(expr, output, context)?,
+        ast::Initializer::Expression(expr) => format_assignment_expression(expr, output, context)?,
         ast::Initializer::Aggregate(exprs) => {
             output.push_str("{ ");
             let (head, tail) = exprs.split_first().unwrap();
@@ -1257,7 +1267,7 @@ fn format_enum(
 
         if let Some(expr) = &value.value {
             output.push_str(" = ");
-            format_expression(expr, output, context)?;
+            format_assignment_expression(expr, output, context)?;
         }
 
         output.push(',');
